@@ -670,7 +670,7 @@ def _num_sums_st(min_size=0):
 
 @st.composite
 def call_template(draw, n_ps):
-    e = draw(st.sampled_from(PLAIN_ENTRIES + EXP_ENTRIES + TOMO_ENTRIES + TOMO_ENTRIES))
+    e = draw(st.sampled_from(TOMO_ENTRIES + EXP_ENTRIES + PLAIN_ENTRIES + TOMO_ENTRIES))
     a = {}
     pi = st.integers(0, n_ps - 1)
     if e == "data":
